@@ -334,4 +334,143 @@ theorem step_enabled (ye : Nat) (h : Sys) (t : Nat) (th : Thread) (hth : h.threa
   | rUse slot p uses => cases uses <;> simp
   | _ => simp
 
+/-- number of own steps a writer at `pc` still needs when both reader slots are idle -/
+def rem : Pc → Nat
+  | .wLoad true _ => 8
+  | .wLoad false _ => 2
+  | .wAlloc _ => 7
+  | .wSwap _ => 6
+  | .wSeen0 _ => 5
+  | .wSeen1 _ z0 => if z0 then 4 else 6
+  | .wFlip _ z0 z1 => if z0 && z1 then 3 else if !z0 && !z1 then 6 else 5
+  | .wHint _ z0 z1 _ => if !z0 && !z1 then 5 else 4
+  | .wLoop0 _ _ z1 _ => if z1 then 3 else 4
+  | .wLoop1 _ z0 _ _ => if z0 then 3 else 5
+  | .wFree _ => 2
+  | .wUnlock _ => 1
+  | _ => 0
+
+theorem rem_le (pc : Pc) : rem pc ≤ 8 := by
+  cases pc with
+  | wLoad st b => cases st <;> simp [rem]
+  | wSeen1 o z0 => cases z0 <;> simp [rem]
+  | wFlip o z0 z1 => cases z0 <;> cases z1 <;> simp [rem]
+  | wHint o z0 z1 i => cases z0 <;> cases z1 <;> simp [rem]
+  | wLoop0 o z0 z1 i => cases z1 <;> simp [rem]
+  | wLoop1 o z0 z1 i => cases z0 <;> simp [rem]
+  | _ => simp [rem]
+
+theorem rem_pos (pc : Pc) (hc : pc.crit = true) : 0 < rem pc := by
+  cases pc with
+  | wLoad st b => cases st <;> simp [rem]
+  | wSeen1 o z0 => cases z0 <;> simp [rem]
+  | wFlip o z0 z1 => cases z0 <;> cases z1 <;> simp [rem]
+  | wHint o z0 z1 i => cases z0 <;> cases z1 <;> simp [rem]
+  | wLoop0 o z0 z1 i => cases z1 <;> simp [rem]
+  | wLoop1 o z0 z1 i => cases z0 <;> simp [rem]
+  | idle => cases hc
+  | rInc g u => cases hc
+  | rData sl u => cases hc
+  | rUse sl p u => cases hc
+  | _ => simp [rem]
+
+
+/-- quiescent progress: with both reader slots idle, a step of a writer inside its critical section keeps
+them idle and uses up one unit of `rem`; taking the writer mutex leaves the slots alone -/
+theorem step_qrem {ye : Nat} {h h' : Sys} {t : Nat} {o : Obs} (hs : step ye h t = some (h', o))
+    (h0 : h.lock0 = 0) (h1 : h.lock1 = 0)
+    (hc : (pcAt h t).crit = true ∨ ∃ b, o = .mutexLock b) :
+    h'.lock0 = 0 ∧ h'.lock1 = 0 ∧ ((pcAt h t).crit = true → rem (pcAt h' t) + 1 = rem (pcAt h t)) := by
+  unfold step at hs
+  cases hth : h.threads[t]? with
+  | none => simp [hth] at hs
+  | some th =>
+    obtain ⟨ht, rfl⟩ := List.getElem?_eq_some_iff.1 hth
+    simp only [hth] at hs
+    simp only [pcAt, hth] at hc ⊢
+    cases hpc : (h.threads[t]).pc with
+    | idle =>
+      simp only [hpc] at hs hc
+      cases hsc : (h.threads[t]).script with
+      | nil => simp [hsc] at hs
+      | cons c rest =>
+        cases c with
+        | read uses =>
+          simp only [hsc, Option.some.injEq, Prod.mk.injEq] at hs
+          obtain ⟨rfl, rfl⟩ := hs
+          rcases hc with hc | ⟨b, hb⟩
+          · cases hc
+          · cases hb
+        | write st bomb =>
+          simp only [hsc] at hs
+          cases hmo : h.mutexOwner with
+          | some w => simp [hmo] at hs
+          | none =>
+            simp only [hmo, Option.some.injEq, Prod.mk.injEq] at hs
+            obtain ⟨rfl, rfl⟩ := hs
+            exact ⟨h0, h1, fun hcr => by cases hcr⟩
+    | rInc g u =>
+      simp only [hpc, Option.some.injEq, Prod.mk.injEq] at hs hc
+      obtain ⟨rfl, rfl⟩ := hs
+      rcases hc with hc | ⟨b, hb⟩
+      · cases hc
+      · cases hb
+    | rData sl u =>
+      simp only [hpc, Option.some.injEq, Prod.mk.injEq] at hs hc
+      obtain ⟨rfl, rfl⟩ := hs
+      rcases hc with hc | ⟨b, hb⟩
+      · cases hc
+      · cases hb
+    | rUse sl p u =>
+      cases u <;>
+      · simp only [hpc, Option.some.injEq, Prod.mk.injEq] at hs hc
+        obtain ⟨rfl, rfl⟩ := hs
+        rcases hc with hc | ⟨b, hb⟩
+        · cases hc
+        · cases hb
+    | wLoad st b =>
+      simp only [hpc, Option.some.injEq, Prod.mk.injEq] at hs
+      obtain ⟨rfl, rfl⟩ := hs
+      cases st <;> simp [ht, rem, h0, h1]
+    | wFlip old z0 z1 =>
+      simp only [hpc, Option.some.injEq, Prod.mk.injEq] at hs
+      obtain ⟨rfl, rfl⟩ := hs
+      cases z0 <;> cases z1 <;> simp [ht, rem, h0, h1]
+    | wHint old z0 z1 it =>
+      simp only [hpc, Option.some.injEq, Prod.mk.injEq] at hs
+      obtain ⟨rfl, rfl⟩ := hs
+      cases z0 <;> cases z1 <;> simp [ht, rem, h0, h1]
+    | wLoop0 old z0 z1 it =>
+      simp only [hpc, Option.some.injEq, Prod.mk.injEq] at hs
+      obtain ⟨rfl, rfl⟩ := hs
+      cases z0 <;> cases z1 <;> simp [ht, rem, h0, h1, afterLoop]
+    | wLoop1 old z0 z1 it =>
+      simp only [hpc, Option.some.injEq, Prod.mk.injEq] at hs
+      obtain ⟨rfl, rfl⟩ := hs
+      cases z0 <;> cases z1 <;> simp [ht, rem, h0, h1, afterLoop]
+    | wSeen1 old z0 =>
+      simp only [hpc, Option.some.injEq, Prod.mk.injEq] at hs
+      obtain ⟨rfl, rfl⟩ := hs
+      cases z0 <;> simp [ht, rem, h0, h1]
+    | wAlloc b =>
+      simp only [hpc, Option.some.injEq, Prod.mk.injEq] at hs
+      obtain ⟨rfl, rfl⟩ := hs
+      simp [ht, rem, h0, h1]
+    | wSwap n =>
+      simp only [hpc, Option.some.injEq, Prod.mk.injEq] at hs
+      obtain ⟨rfl, rfl⟩ := hs
+      simp [ht, rem, h0, h1]
+    | wSeen0 old =>
+      simp only [hpc, Option.some.injEq, Prod.mk.injEq] at hs
+      obtain ⟨rfl, rfl⟩ := hs
+      simp [ht, rem, h0, h1]
+    | wFree old =>
+      simp only [hpc, Option.some.injEq, Prod.mk.injEq] at hs
+      obtain ⟨rfl, rfl⟩ := hs
+      simp [ht, rem, h0, h1]
+    | wUnlock p =>
+      simp only [hpc, Option.some.injEq, Prod.mk.injEq] at hs
+      obtain ⟨rfl, rfl⟩ := hs
+      simp [ht, rem, h0, h1]
+
 end SigHook.HalfLock
